@@ -15,6 +15,10 @@
                           I/O error — never a value
   `c14_tampered_written`: for any write/flush program on a `CryptoWriter` and a loader that consumes exactly the
                           written plaintext, every cut or change of the stream fails the load (no empty frames)
+  `c14_damaged_load`    : the same for *any* damage behind an intact nonce header (bytes changed, frames exchanged,
+                          replayed, removed or inserted), not only one byte or a cut
+  `c14_position_binding_partial` : finding D25 — with the stored nonce replaced by its successor and the first frame
+                          removed, everything that is left authenticates: the format does not bind frames to the stream
   `c14_wrong_password`  : under a key nothing was sealed with, no frame opens: the loader gets no plaintext
   `c14_partial`         : the hypothesis "the loader read into the last frame" is needed (a loader that stops
                           earlier cannot notice that the last frame is gone).  For savefile it is checked per
@@ -130,6 +134,44 @@ theorem c14_tampered_written {α : Type} (A : Aead) (prod) (hI : Ideal A prod) (
 example : CW.written [.write [1, 2, 3], .flush, .flush] ≠ []
     ∧ (RP.read 3 (fun b => RP.ret b.length)).runWhole (CW.written [.write [1, 2, 3], .flush, .flush]) = (.val 3, []) :=
   ⟨by simp [CW.written], rfl⟩
+
+/-- **Any** damage behind an intact nonce header — several bytes changed, frames exchanged, replayed, removed or
+    inserted, data cut — not only one byte or a cut: unless the original frames are all still there in front, a
+    loader that on the intact plaintext read into the last frame fails. -/
+theorem c14_damaged_load {α : Type} (A : Aead) (prod) (hI : Ideal A prod) (n0 : NonceSeq) (hn : n0.wf)
+    (chunks : List Bytes) (last : Bytes) (hlast : chunks.getLast? = some last)
+    (hp : ∀ e ∈ produced A n0 chunks, e ∈ prod) (hc : ∀ c ∈ chunks, c ≠ [] ∧ c.length ≤ cryptoBuf)
+    (p : RP α) (a : α) (rest : Bytes)
+    (hload : p.runWhole chunks.flatten = (.val a, rest)) (hinto : rest.length < last.length)
+    (x : Bytes) (hx : ¬ (framesBytes A n0 chunks <+: x)) :
+    ∃ e, p.runTerm (decStream A (n0.bytes ++ x)).1 (decStream A (n0.bytes ++ x)).2 = .io e := by
+  obtain ⟨j, hj, hP⟩ := decStream_damaged A prod hI n0 hn chunks hp hc x hx
+  rw [hP]
+  have hb := take_flatten_bound chunks j last hj hlast
+  refine RP.prefix_fails p chunks.flatten _ rest _ a hload (by omega) ?_
+  have : chunks = chunks.take j ++ chunks.drop j := (List.take_append_drop j chunks).symm
+  conv => rhs; rw [this, List.flatten_append]
+  exact List.prefix_append _ _
+
+
+/-- what the stored data must not be for `c14_damaged_load`: the original frames followed by anything.  Exchanging
+    the two frames of a two-frame stream is damage in this sense. -/
+example (A : Aead) (n : NonceSeq) (a b : Bytes) (h : framesBytes A n [a, b] ≠ framesBytes A n [b, a])
+    (hl : (framesBytes A n [a, b]).length = (framesBytes A n [b, a]).length) :
+    ¬ (framesBytes A n [a, b] <+: framesBytes A n [b, a]) := by
+  intro hp
+  exact h (hp.eq_of_length hl)
+
+/-- **The limit of the format (finding D25).**  A frame is bound to its position only through the nonce counter, and
+    the counter's start is stored in the clear in front of the frames.  Storing the next counter value and removing
+    the first frame gives a stream in which every remaining frame authenticates: it decrypts, with a clean end, to
+    the plaintext without its first chunk.  `c14_damaged_load` therefore needs its intact-header hypothesis, and
+    "any modification yields an error" is false of multi-frame streams whose plaintext makes sense from the second
+    chunk on (shown on the real code by the `cwprog` suite). -/
+theorem c14_position_binding_partial (A : Aead) (prod) (hI : Ideal A prod) (n0 : NonceSeq) (hn : n0.wf) (c : Bytes) (cs : List Bytes)
+    (hp : ∀ e ∈ produced A n0 (c :: cs), e ∈ prod) (hc : ∀ c' ∈ c :: cs, c' ≠ [] ∧ c'.length ≤ cryptoBuf) :
+    decStream A (n0.advance.bytes ++ framesBytes A n0.advance cs) = (cs.flatten, .clean) :=
+  decStream_first_frame_removed A prod hI n0 hn c cs hp hc
 
 /-- the writer uses each nonce once (fewer than 2^96 frames per stream) -/
 theorem c14_nonce_once (A : Aead) (chunks : List Bytes) (n : NonceSeq) (hn : n.wf) (hl : chunks.length < 2 ^ 96) :
